@@ -225,6 +225,12 @@ def runOp (w : World) (body : List String) (masks : List Mask) (ev : Events) : W
         | (w, .ok ()) => let (w, r) := w.flush; (w, showResUnit r)
         | (w, r) => (w, showResUnit r)
       | none => (w0, "bad-op")
+    | "setcfg" :: rest =>
+      -- `set_config`: the new configuration, `assert_valid`, then the codec's two sizes
+      let (_, cfg, _) := parseCfg rest
+      if configValid cfg.maxw cfg.wbuf then
+        ({ w0 with c := { w0.c with cfg := cfg, codec := { w0.c.codec with maxOut := cfg.maxw, writeLen := cfg.wbuf } } }, "ok unit")
+      else ({ w0 with c := { w0.c with cfg := cfg } }, "panic")
     | "can" :: _ => (w0, "ok unit")
     | _ => (w0, "bad-op")
   let calls := w1.t.log.reverse.map showCall
@@ -592,11 +598,18 @@ def monHs (isServer : Bool) (lines : Array String) (cbSpec : String) (statusLine
   let mut headComplete := false     -- the bytes delivered so far contain a complete head
   let mut lastPartial := false      -- ... are a proper prefix of a head (the parser says: need more)
   let mut readAfterHead := false
+  let mut continuedAfterBlock := false
   let mut failedOnPartial : Option String := none
   for l in lines do
     match words l with
     | "io" :: evs =>
       if headComplete && !finishing && !hsDone && evs.any (fun t => t.startsWith "r:") then readAfterHead := true
+      -- a transport call that would block ends the handshake call: nothing follows it
+      if !hsDone then
+        let blockedAt := evs.findIdx? fun t => t == "r:b" || t == "f:b" || t.startsWith "w:b"
+        match blockedAt with
+        | some k => if k + 1 < evs.length then continuedAfterBlock := true
+        | none => pure ()
     | "parsed" :: n :: rest =>
       if !hsDone then
         reads := reads + 1
@@ -626,6 +639,8 @@ def monHs (isServer : Bool) (lines : Array String) (cbSpec : String) (statusLine
   | none => pure ()
   if readAfterHead then
     out := out ++ ["mon C17 FAIL read-after-complete-head", s!"mon {own} FAIL read-after-complete-head"]
+  if continuedAfterBlock then
+    out := out ++ ["mon C17 FAIL continued-after-wouldblock", "mon C07 FAIL handshake-continued-after-wouldblock"]
   -- C17: the guard bounds what a reading stage consumes
   if reads > 513 || lastLen > 65536 + 4096 then out := out ++ ["mon C17 FAIL guard-bound-exceeded"]
   else out := out ++ ["mon C17 ok"]
